@@ -136,12 +136,30 @@ def _ttl_block(qs, style, ind):
             subj_of.setdefault(q[0], []).append(q)
     obj_anon = {q[2] for q in qs if q[2][0] == "a"}
 
+    def coll_items(o):
+        """items of the collection whose head cell is o, or None if o is not a well-formed cell chain"""
+        items = []
+        while True:
+            inner = subj_of.get(o, [])
+            if len(inner) != 2 or inner[0][1] != ("i", RDFNS + "first") or inner[1][1] != ("i", RDFNS + "rest"):
+                return None
+            items.append(inner[0][2])
+            nxt = inner[1][2]
+            if nxt == ("i", RDFNS + "nil"):
+                return items
+            if nxt[0] != "a":
+                return None
+            o = nxt
+
     def obj_text(o):
         if o[0] != "a":
             return _ttl_ground(o, style)
         inner = subj_of.get(o, [])
         if not inner:
             return "[]"
+        items = coll_items(o) if not style.get("nocoll") else None
+        if items is not None:
+            return "( " + " ".join(obj_text(x) for x in items) + " )"
         return "[ " + " ; ".join("%s %s" % (_ttl_ground(q[1], style), obj_text(q[2])) for q in inner) + " ]"
 
     out = []
